@@ -442,9 +442,9 @@ impl<'a> CompilerState<'a> {
             .pratt
             .map_primary(|primary| -> Result<Expr, Error> {
                 match primary.as_rule() {
-                    Rule::int => Ok(Expr::Integer(parse_int(
-                        primary.into_inner().next().unwrap(),
-                    ))),
+                    Rule::int => Ok(Expr::Integer(
+                        self.parse_int(primary.into_inner().next().unwrap())?,
+                    )),
                     Rule::expr => {
                         let res = self.parse_expr_ex(primary.into_inner())?;
                         let mut lit_strs = literal_strings.lock().unwrap();
@@ -603,9 +603,9 @@ impl<'a> CompilerState<'a> {
             .pratt_init_value
             .map_primary(|primary| -> Result<Expr, Error> {
                 match primary.as_rule() {
-                    Rule::int => Ok(Expr::Integer(parse_int(
-                        primary.into_inner().next().unwrap(),
-                    ))),
+                    Rule::int => Ok(Expr::Integer(
+                        self.parse_int(primary.into_inner().next().unwrap())?,
+                    )),
                     Rule::expr => {
                         let res = self.parse_expr_ex(primary.into_inner())?;
                         let mut lit_strs = literal_strings.lock().unwrap();
@@ -834,7 +834,7 @@ impl<'a> CompilerState<'a> {
                                 case_set = (Vec::<i32>::new(), Vec::<StatementLoc<'a>>::new());
                                 last_was_a_statement = false;
                             }
-                            case_set.0.push(parse_int(i.into_inner().next().unwrap()));
+                            case_set.0.push(self.parse_int(i.into_inner().next().unwrap())?);
                         }
                         Rule::statement => {
                             case_set.1.push(self.compile_statement(i)?);
@@ -931,14 +931,14 @@ impl<'a> CompilerState<'a> {
                 })
             }
             Rule::csleep_statement => {
-                let s = parse_int(
+                let s = self.parse_int(
                     pair.into_inner()
                         .next()
                         .unwrap()
                         .into_inner()
                         .next()
                         .unwrap(),
-                );
+                )?;
                 Ok(StatementLoc {
                     pos,
                     label: None,
@@ -1016,7 +1016,7 @@ impl<'a> CompilerState<'a> {
         self.calculator
             .map_primary(|primary| -> Result<i32, Error> {
                 match primary.as_rule() {
-                    Rule::int => Ok(parse_int(primary.into_inner().next().unwrap())),
+                    Rule::int => self.parse_int(primary.into_inner().next().unwrap()),
                     Rule::calc_expr => Ok(self.parse_calc(primary.into_inner())?),
                     Rule::calc_sizeof => Ok(self.parse_sizeof(primary.into_inner())?),
                     rule => unreachable!("parse_calc expected atom, found {:?}", rule),
@@ -1364,14 +1364,14 @@ impl<'a> CompilerState<'a> {
                                                     }
                                                     Rule::ptr_offset => {
                                                         let sign = if x.as_str().starts_with("-") { -1 } else { 1 };
-                                                        let offset = parse_int(
+                                                        let offset = self.parse_int(
                                                             x.into_inner()
                                                                 .next()
                                                                 .unwrap()
                                                                 .into_inner()
                                                                 .next()
                                                                 .unwrap(),
-                                                        );
+                                                        )?;
                                                         match pxx.next() {
                                                         Some(x) => match x.as_rule() {
                                                             Rule::ptr_low => {
@@ -1473,7 +1473,7 @@ impl<'a> CompilerState<'a> {
                                                                 },
                                                                 Rule::ptr_offset => {
                                                                     let sign = if x.as_str().starts_with("-") { -1 } else { 1 };
-                                                                    let offset = parse_int(x.into_inner().next().unwrap().into_inner().next().unwrap());
+                                                                    let offset = self.parse_int(x.into_inner().next().unwrap().into_inner().next().unwrap())?;
                                                                     match pxxx.next() {
                                                                         Some(x) => match x.as_rule() {
                                                                             Rule::ptr_low => {
@@ -1539,7 +1539,7 @@ impl<'a> CompilerState<'a> {
                                                             Some(x) => match x.as_rule() {
                                                                 Rule::ptr_offset => {
                                                                     let sign = if x.as_str().starts_with("-") { -1 } else { 1 };
-                                                                    sign * parse_int(x.into_inner().next().unwrap().into_inner().next().unwrap())
+                                                                    sign * self.parse_int(x.into_inner().next().unwrap().into_inner().next().unwrap())?
                                                                 },
                                                                 _ => return Err(self.syntax_error(&format!("Incorrect suffix to reference {}", s), start))
                                                             },
@@ -2259,6 +2259,23 @@ impl<'a> CompilerState<'a> {
         Ok(())
     }
 
+    fn parse_int(&self, p: Pair<Rule>) -> Result<i32, Error> {
+        let pos = p.as_span().start();
+        let value = match p.as_rule() {
+            Rule::decimal => p.as_str().parse::<i32>().ok(),
+            Rule::hexadecimal => i32::from_str_radix(&p.as_str()[2..], 16).ok(),
+            Rule::octal => i32::from_str_radix(p.as_str(), 8).ok(),
+            Rule::quoted_character => {
+                let s = compile_quoted_string_ex(p.into_inner().next().unwrap().as_str());
+                s.chars().next().map(|c| c as i32)
+            }
+            _ => {
+                unreachable!()
+            }
+        };
+        value.ok_or_else(|| self.syntax_error("Invalid integer constant", pos))
+    }
+
     fn compile_quoted_string(&self, p: Pair<Rule>) -> String {
         let mut v = String::new();
         let it = p.into_inner();
@@ -2268,21 +2285,6 @@ impl<'a> CompilerState<'a> {
         }
         v.push(char::from_u32(0).unwrap());
         v
-    }
-}
-
-fn parse_int(p: Pair<Rule>) -> i32 {
-    match p.as_rule() {
-        Rule::decimal => p.as_str().parse::<i32>().unwrap(),
-        Rule::hexadecimal => i32::from_str_radix(&p.as_str()[2..], 16).unwrap(),
-        Rule::octal => i32::from_str_radix(p.as_str(), 8).unwrap(),
-        Rule::quoted_character => {
-            let s = compile_quoted_string_ex(p.into_inner().next().unwrap().as_str());
-            s.chars().next().unwrap() as i32
-        }
-        _ => {
-            unreachable!()
-        }
     }
 }
 
